@@ -13,6 +13,10 @@
                        in its QUAL it holds points that evaluate to D k i at i, or a revealed
                        share D k i)
      key_ok s          the accepted points' constant terms / reconstructed keys are f_k(0)
+     commits_of s m    the commitments member s holds for member m ([] when none)
+     revealed_consistent c s
+                       every share in s's table of revealed shares lies on the polynomial its
+                       dealer committed to: v = sum_k a_k * i^k (mod q) for the revealer's index i
    G2 points are discrete logarithms modulo q, so "share * G2 = public key share" reads
    "share = public key share (mod q)". *)
 From Coq Require Import ZArith Znumtheory NArith List Bool Permutation.
@@ -100,6 +104,36 @@ Print Assumptions spec_ok_sound.
 Theorem out_of_scope_ok : forall cs, in_scope cs = false -> spec_ok cs = true.
 Proof. exact Proofs.C02.out_of_scope_ok. Qed.
 Print Assumptions out_of_scope_ok.
+
+(* recoverMisbehavedShares (phase 11), one revealed ephemeral key, ANY revealer (honest, or a
+   corrupt accomplice of the misbehaved member), any state: the table of revealed shares changes
+   in one way only, by admitting the share decrypted with the revealed key AFTER it passed
+   areSharesValidAgainstCommitments against the misbehaved member's commitments at the revealer's
+   index; in every other branch (own key, operating member, key not matching, missing public key
+   or shares message, undecryptable, inconsistent with the commitments) it is untouched. *)
+Theorem revealed_share_admitted_only_if_consistent : forall c revealer s stop mis key,
+  let r := recover11 c revealer (s, stop) (mis, key) in
+  commits (fst r) = commits s /\
+  (revealed (fst r) = revealed s \/
+   exists sh mpk vs vt,
+     lookup mis (log_sh s) = Some sh /\ find_pub s mis revealer = Some mpk /\
+     decrypt sh revealer (ecdh key mpk) = Some (vs, vt) /\
+     valid_g1 (q c) vs vt (commits_of s mis) revealer = true /\
+     revealed (fst r) = add_share mis revealer vs (revealed s)).
+Proof. exact Proofs.C02.recover11_admits_only_consistent. Qed.
+Print Assumptions revealed_share_admitted_only_if_consistent.
+
+(* hence, over the whole loop of recoverMisbehavedShares (any number of reveal messages, any keys
+   in them, any order, any senders): every share in the table lies on the polynomial the
+   misbehaved member committed to (revealed_consistent: v = sum_k a_k * i^k mod q for the
+   commitments (a_k, b_k) held for that member) - the premise reconstructed_key_correct needs for
+   the shares that come from other members' reveals. *)
+Theorem revealed_shares_lie_on_committed_polynomial :
+  forall c (msgs : list (N * list (N * ekey))) sb,
+  revealed_consistent c (fst sb) ->
+  revealed_consistent c (fst (fold_left (fun sb m => fold_left (recover11 c (fst m)) (snd m) sb) msgs sb)).
+Proof. exact Proofs.C02.recover_all_keeps_consistent. Qed.
+Print Assumptions revealed_shares_lie_on_committed_polynomial.
 
 (* NOT PROVED (kept visible): that the hypotheses recv_ok / pub_ok / key_ok hold of the states
    reached by [run] for every adversary script with at most t corrupt seats in which agreement
